@@ -8,7 +8,10 @@
 //! Criterios de orientación UNE-EN ISO 52016-1, (S=0, E=+90, W=-90)
 #![allow(clippy::approx_constant)]
 
+#[cfg(not(kani))]
 use std::collections::HashMap;
+#[cfg(kani)]
+use crate::kani_models::HashMap;
 
 use crate::Orientation;
 
